@@ -9,7 +9,7 @@ pub fn prop() -> HistProp {
     opts.wellformed = true;
     HistProp {
         opts,
-        cfgs: || cfg_strategy(2),
+        cfgs: || crate::gen::with_emb(cfg_strategy(2)),
         max_ops: 40,
         max_prepop: 8,
         cases_quick: 2500,
